@@ -60,6 +60,7 @@ pub enum IdxDelta {
     /// one open callback that creates one index (with backfill) and removes another
     AddEmbDropTags,
     AddBodyDropName,
+    AddTagsDropBody,
 }
 
 impl IdxDelta {
@@ -80,6 +81,10 @@ impl IdxDelta {
             IdxDelta::AddBodyDropName => {
                 i.body = true;
                 i.name = false;
+            }
+            IdxDelta::AddTagsDropBody => {
+                i.tags = true;
+                i.body = false;
             }
         }
         i
